@@ -497,10 +497,11 @@ def run(ctx):
     ctx.guarded('C14-D7', 'correlators.py@operators', d7_operators, ctx, mod)
     ctx.rule('C14-D10', 'container: padding, extent, item access, definition of undefined')
     ctx.guarded('C14-D10', 'correlators.py@container', d10_container, ctx, mod)
-    from .. import unusedparams
-    ctx.rule('C14-D9', 'every accepted option is read (no silently ignored parameter)')
+    from .. import unusedparams, leakedloop
+    ctx.rule('C14-D9', 'every accepted option is read (no silently ignored parameter); no loop variable read after its loop')
     for mn_ in ('correlators',):
         ctx.guarded('C14-D9', mn_ + '@parameters', unusedparams.check, ctx, 'C14-D9', ctx.repo.mod(mn_))
+        ctx.guarded('C14-D9', mn_ + '@loop-variables', leakedloop.check, ctx, 'C14-D9', ctx.repo.mod(mn_))
 
 
 
